@@ -205,7 +205,9 @@ def gen_case(draw, tier):
 			body = body + prefix + x
 		if big and i == 0:
 			# a contig larger than any I/O buffer (text wrapper 8 KiB, gzip 128 KiB)
-			body = body + ''.join(random.Random(draw(st.integers(0, 1000))).choice('ACGT') for _ in range(draw(st.sampled_from([9000, 70000, 140000]))))
+			rbig = random.Random(draw(st.integers(0, 1000)))
+			nbig = draw(st.sampled_from([9000, 70000, 140000] if tier == 'thorough' else [9000, 70000, 9000]))
+			body = body + ''.join(rbig.choice('ACGT') for _ in range(nbig))
 			contigs.append(body)
 			continue
 		contigs.append(body[:600])
